@@ -782,6 +782,15 @@ func (r *Replica) Restore(ctx context.Context, opt RestoreOptions) (err error) {
 		return err
 	}
 
+	// In follow mode, publish the TXID sidecar before the database itself: a
+	// crash between the two must never leave a database without a sidecar,
+	// which crash recovery refuses to resume.
+	if opt.Follow {
+		if err := WriteTXIDFile(opt.OutputPath, infos[len(infos)-1].MaxTXID); err != nil {
+			return fmt.Errorf("write initial txid file: %w", err)
+		}
+	}
+
 	// Copy file to final location.
 	r.Logger().Debug("renaming database from temporary location")
 	verifhook.FS("rename", tmpOutputPath, opt.OutputPath)
